@@ -133,6 +133,26 @@ Fixpoint py_eqb (a b : pyval) {struct a} : bool :=
     end
   end.
 
+Definition kind_eqb (a b : kind) : bool :=
+  match a, b with
+  | KNone, KNone | KBool, KBool | KInt, KInt | KFloat, KFloat | KComplex, KComplex | KStr, KStr | KBytes, KBytes
+  | KByteArray, KByteArray | KList, KList | KTuple, KTuple | KDict, KDict | KSet, KSet | KFrozenSet, KFrozenSet
+  | KEnum, KEnum | KInst, KInst | KOpaque, KOpaque => true
+  | KStd x, KStd y => stdkind_eqb x y
+  | _, _ => false
+  end.
+
+Lemma kind_eqb_eq a b : kind_eqb a b = true -> a = b.
+Proof. destruct a as [| | | | | | | | | | | | | | |x|], b as [| | | | | | | | | | | | | | |y|]; simpl; try discriminate; try reflexivity. destruct x, y; simpl; try discriminate; reflexivity. Qed.
+
+(* LiteralConverter: a literal is matched by an equal value of the same type only *)
+Definition lit_match (v l : pyval) : bool := kind_eqb (kind_of v) (kind_of l) && py_eqb v l.
+
+Lemma lit_match_eqb v l : lit_match v l = true -> py_eqb v l = true.
+Proof. unfold lit_match. intros H. apply andb_prop in H. tauto. Qed.
+Lemma lit_match_kind v l : lit_match v l = true -> kind_of v = kind_of l.
+Proof. unfold lit_match. intros H. apply andb_prop in H. apply kind_eqb_eq. tauto. Qed.
+
 (* hashable(v): what dict/set keys must be *)
 Fixpoint hashable (v : pyval) : bool :=
   match v with
